@@ -61,6 +61,8 @@ def showTable (P : PrimeSet) (inverse : Bool) (n : Nat) : String :=
       let g := fun (t : TableK) => ((t.levels.getD j ({ q2bs := 0, bs := 0, halfBs := 0, mask := 0, reduce := false }, [])).2).toArray
       let a0 := g t0; let a1 := g t1; let a2 := g t2; let a3 := g t3
       interleave4 a0 a1 a2 a3 a0.size)
+    -- `n = 1`: the constructors return before `powomega.truncate`, leaving the 8 zero words of the allocation
+    let po := if t0.levels.isEmpty then List.replicate 8 0 else po
     s!"64/{t0.outBs} {if lv.isEmpty then "-" else "|".intercalate lv} {showNats po}"
   | .panic c, _, _, _ => "panic:" ++ c
   | _, _, _, _ => "panic:assert"
